@@ -4,7 +4,7 @@ import numpy as np
 from common import *
 
 PROP_MODULES = ["HvsrVerif.Props.C02"]
-BRIDGE_MODULES = ["HvsrVerif.Bridge.C02"]
+BRIDGE_MODULES = ["HvsrVerif.Bridge.C02", "HvsrVerif.Bridge.PyWindows"]
 
 OPS = ["konno_and_ohmachi", "parzen", "savitzky_and_golay", "linear_rectangular", "log_rectangular", "linear_triangular", "log_triangular"]
 LOGBW = {"konno_and_ohmachi", "log_rectangular", "log_triangular"}
